@@ -192,6 +192,13 @@ pub fn check_sinks_and_moves(h: &History, tmpdir: &str, obs: &mut Obs) -> Vec<Vi
         let ex = run_on(boxed, h, &ExecOpts::default(), &no_seq);
         cmp("Box<dyn Write + Send>", ex.build, ex.results, shared.bytes(), &mut out);
     }
+    // the caller's buffer management is not part of the call sequence: one reused buffer for all
+    // frames (same address, often same length) vs a fresh buffer per frame
+    {
+        let mut vec: Vec<u8> = Vec::new();
+        let ex = crate::exec::with_reused_buffer(|| run_on(&mut vec, h, &ExecOpts::default(), &no_seq));
+        cmp("caller reuses one frame buffer", ex.build, ex.results, vec, &mut out);
+    }
     // "in another muxer instance": the same sequence again on a thread on which earlier muxers
     // failed at finish (sink error at one of several write calls) or were dropped unfinished
     {
